@@ -144,6 +144,21 @@ def wake : Nat → Pool → Pool
 
 def stepFuel (p : Pool) : Nat := (p.progs.map (fun l => l.length + 3)).sum + p.workers.length * 2 + 8
 
+/-- The scheduler pops worker `w` and finds a cancel request for it: the coroutine is dropped without
+running again.  Its listeners are told (`on_cancel` with its parked state): the slot goes back, the
+task it was in the middle of gets the result "cancelled" (and its waiter is woken), the pool may
+grow again for the remaining work. -/
+def dropParked (p : Pool) (w : Nat) : Pool :=
+  let p := { p with cancelCos := p.cancelCos.filter (· != w), dropped := w :: p.dropped }
+  match p.workers[w]? with
+  | none => p
+  | some x =>
+    if !x.alive then p else
+    let p1 := setWorker { p with running := p.running - 1 } w { x with alive := false, task := none, rest := [] }
+    match x.task with
+    | some t => tryGrow (finish { p1 with runningTasks := p1.runningTasks.filter (fun e => e.1 != t), droppedTasks := t :: p1.droppedTasks } t (.err "The task was cancelled"))
+    | none => tryGrow p1
+
 /-- the scheduler loop of one pass -/
 def schedLoop : Nat → Pool → Pool
   | 0, p => p
@@ -153,9 +168,7 @@ def schedLoop : Nat → Pool → Pool
     | [] => p
     | w :: rest =>
       let p := { p with ready := rest }
-      if p.cancelCos.contains w then
-        schedLoop f { p with cancelCos := p.cancelCos.filter (· != w), dropped := w :: p.dropped,
-                             droppedTasks := ((p.workers[w]?.bind (·.task)).toList) ++ p.droppedTasks }
+      if p.cancelCos.contains w then schedLoop f (dropParked p w)
       else schedLoop f (resumeWorker (stepFuel p) p w)
 
 /-- `try_schedule_task`: `none` = Err (pool stopped) -/
